@@ -11,11 +11,11 @@ cd "$WT" || exit 2
 git checkout -q -- . ; git clean -fdq -e Cargo.lock -e target
 git apply --check "$SRC/patch.diff" || { echo "patch does not apply"; exit 1; }
 git apply "$SRC/patch.diff"
-suite=$(CARGO_NET_OFFLINE=true cargo test --workspace --offline ${FEATURES:-} 2>&1 | grep -E "^test result" | awk '{p+=$4; f+=$6} END {print p" passed "f" failed"}')
+suite=$(CARGO_NET_OFFLINE=true cargo test --workspace --offline ${FEATURES:-} 2>&1 | grep -a -E "^test result" | awk '{p+=$4; f+=$6} END {print p" passed "f" failed"}')
 cp "$SRC/demo.rs" tests/seed_demo.rs
-with=$(CARGO_NET_OFFLINE=true cargo test --offline ${FEATURES:-} --test seed_demo 2>&1 | grep -E "^test result" | tail -1)
+with=$(CARGO_NET_OFFLINE=true cargo test --offline ${FEATURES:-} --test seed_demo 2>&1 | grep -a -E "^test result" | tail -1)
 git checkout -q -- . 
-without=$(CARGO_NET_OFFLINE=true cargo test --offline ${FEATURES:-} --test seed_demo 2>&1 | grep -E "^test result" | tail -1)
+without=$(CARGO_NET_OFFLINE=true cargo test --offline ${FEATURES:-} --test seed_demo 2>&1 | grep -a -E "^test result" | tail -1)
 rm -f tests/seed_demo.rs
 echo "suite with change: $suite"
 echo "demo with change: $with"
